@@ -4,7 +4,7 @@
     [Print Assumptions].  The model is the code after fixes/F3, F4, F15, F21. *)
 From Coq Require Import ZArith List Bool String.
 From Verif Require Import AdmitTotal.Base AdmitTotal.Model AdmitTotal.Theorems AdmitTotal.Sites Gen.PanicSites.
-From Verif Require Import AdmitTotal.State AdmitTotal.ProofsState1 AdmitTotal.ProofsState2 AdmitTotal.ProofsState4 AdmitTotal.ProofsState5 AdmitTotal.TheoremsState AdmitTotal.ProofsKeys2 AdmitTotal.TheoremsKeys AdmitTotal.ProofsConf.
+From Verif Require Import AdmitTotal.State AdmitTotal.ProofsState1 AdmitTotal.ProofsState2 AdmitTotal.ProofsState4 AdmitTotal.ProofsState5 AdmitTotal.TheoremsState AdmitTotal.ProofsKeys2 AdmitTotal.TheoremsKeys AdmitTotal.ProofsConf AdmitTotal.ProofsBounds.
 Import ListNotations.
 
 (** types.Tx.Validate (mempool.verifyTx, and the first step of chain.executeTx) terminates with
@@ -159,6 +159,18 @@ Theorem C14_reachable_executes_full :
     rpc_parts rpc_b64_ok rpc_has_w cc_peer_ok cc_addr_ok cc_hex_ok b58dec jmarshal junmarshal e t g acct se <> Panic p.
 Proof. exact reachable_executes_full. Qed.
 Print Assumptions C14_reachable_executes_full.
+
+(** The byte-size premises of [step] ([upd_bounded]) follow from numeric bounds on amounts: an
+    amount below 2^304 is written in at most 38 bytes (the total supply is 5*10^26 < 2^89). *)
+Theorem C14_staking_record_short : forall w amount, (Z.abs amount < 256 ^ 38)%Z ->
+  (List.length (ser_staking w (be_bytes amount)) < 47)%nat.
+Proof. exact staking_record_short. Qed.
+Print Assumptions C14_staking_record_short.
+
+Theorem C14_bp_entry_short : forall k v, List.length k = 39%nat -> (Z.abs v < 256 ^ 38)%Z ->
+  (List.length (ser_vote false k (be_bytes v)) < 78)%nat.
+Proof. exact bp_entry_short. Qed.
+Print Assumptions C14_bp_entry_short.
 
 (** Every index / slice / single-value assertion / explicit panic found by gen_panicsites in the
     current source tree is one the model accounts for (Sites.model_sites). *)
